@@ -554,7 +554,7 @@ class FakeLambdaClient:
 
     def checkpoint_durable_execution(self, DurableExecutionArn, CheckpointToken, Updates, **kw):  # noqa: N803
         w, be = self.w, self.be
-        k = self._prologue("checkpoint", len(Updates), CheckpointToken, kinds=[[u.get("Type"), u.get("Action")] for u in Updates])
+        k = self._prologue("checkpoint", len(Updates), CheckpointToken, kinds=[[u.get("Type"), u.get("Action"), u.get("Id"), u.get("Name")] for u in Updates])
         be.advance()
         if CheckpointToken != be.latest_token:
             w.hit("stale-token")
